@@ -2,7 +2,7 @@
    provider that deviates from the contract, LevelDB, inherit exactly its deviation); explicit GetBulk / Batch facts. *)
 From Coq Require Import List NArith ZArith Bool.
 Import ListNotations.
-From VF Require Import C11.Model C11.Proofs C11.ProofsL C11.ProofsC C11.ProofsO.
+From VF Require Import C11.Model C11.Proofs C11.ProofsB C11.ProofsF C11.ProofsR C11.Corr C11.ProofsS C11.ProofsG C11.ProofsL C11.ProofsC C11.ProofsO.
 Local Open Scope N_scope.
 
 (* cachedstore over ANY provider P whose ENTRIES follow the contract (its queries may be anything), whose reads do not
@@ -64,6 +64,52 @@ Theorem formatted_embed_asis_refuted :
   run (formatted_rand_embed true b64_fmt (mem true)) ([], 0) ops = run (spec_prov false) [] ops.
 Proof. split; [|split]; vm_compute; [discriminate|reflexivity|reflexivity]. Qed.
 Print Assumptions formatted_embed_asis_refuted.
+
+(* ---------- stacks of ANY shape over the in-memory provider ---------- *)
+(* Caching, batching, deterministic-key and random-key formatting layers in any order and number (two random layers, a
+   deterministic layer over a random one, ...).  [stack_ok s]: no LevelDB / embedding layer, and below every random-key
+   layer the formatted name of the internal "Key" tag is itself an acceptable tag name (computed; true for every stack
+   built from the base64 formatter).  [guard_n (names_of s)]: single-criterion queries, well-formed batches, and tag
+   names whose images under the formatters below never collide with "Key" (computed from the stack). *)
+Theorem any_stack_refines : forall s ops, stack_ok s = true -> forallb (guard_n (names_of s)) ops = true ->
+  run (prov_of s) (init (prov_of s)) ops = run (spec_prov false) [] ops.
+Proof. intros s ops Hs Hops. apply (sim_run (guard_n (names_of s)) false (prov_of s) (grel s));
+  [apply any_stack_sim; assumption|assumption|apply any_stack_rel_init; assumption]. Qed.
+Print Assumptions any_stack_refines.
+
+Theorem any_stack_rewrap_refines : forall s pre ops, stack_ok s = true ->
+  forallb (guard_n (names_of s)) pre = true -> forallb (guard_n (names_of s)) ops = true ->
+  run (prov_of s) (rewrap s (run_state (prov_of s) (init (prov_of s)) pre)) ops =
+  run (spec_prov false) (run_state (spec_prov false) [] pre) ops.
+Proof. intros s pre ops Hs Hpre Hops.
+  apply (sim_run (guard_n (names_of s)) false (prov_of s) (grel s)); [apply any_stack_sim; assumption|assumption|].
+  apply any_stack_rel_rewrap; [assumption|].
+  apply (sim_run_state (guard_n (names_of s)) false (prov_of s) (grel s)); [apply any_stack_sim; assumption|assumption|apply any_stack_rel_init; assumption]. Qed.
+Print Assumptions any_stack_rewrap_refines.
+
+(* the two wrapper theorems in their general form: the store below may itself carry a guard *)
+Theorem formatted_det_transparent_g : forall (F : formatter) pers (P : prov) R pn,
+  fmt_ok F -> sim (guard_n pn) pers P R ->
+  sim (guard_n (fun n => pn (fn F n))) pers (formatted_det F P) (fmt_rel F P R).
+Proof. intros F pers P R pn HF HP.
+  apply (formatted_det_sim_g F HF pers P R (guard_n (fun n => pn (fn F n))) (guard_n pn)).
+  - apply guard_n_wf1.
+  - intros k v t Hg. unfold guard_n in *. apply andb_prop in Hg as [_ Hg]. cbn [wf1_op wf_op andb]. exact (eq_trans (names_ok_fmt F pn t) Hg).
+  - intros c Hg. unfold guard_n in *. apply andb_prop in Hg as [_ Hg]. exact Hg.
+  - intros b Hg. apply guard_n_batch. apply guard_n_batch_inv in Hg. apply forallb_gbn in Hg as [H1 H2]. apply forallb_gbn.
+    split; [apply (wf_batch_fmt F HF); exact H1|apply names_batch_fmt; exact H2].
+  - intros o. destruct o; auto.
+  - exact HP. Qed.
+Print Assumptions formatted_det_transparent_g.
+
+Example any_stack_nonvacuous :
+  let s := SFmt FB64 (SFmtR FB64 (SBatched 2 (SFmtR FB64 SMem))) in   (* deterministic over random over batched over random *)
+  let ops := [Put 1 1 [(1, 1)]; Batch [(1, 0, []); (1, 2, [(2, 2)]); (2, 4, [])]; Get 1; GetTags 1; Query [(2, 2)]; Delete 1;
+              Get 1; GetBulk [1; 2]; Put 2 3 [(1, 0)]; Query [(1, 0)]] in
+  stack_ok s = true /\ forallb (guard_n (names_of s)) ops = true /\
+  run (prov_of s) (init (prov_of s)) ops =
+  [ODone; ODone; OVal 2; OTags [(2, 2)]; OQuery [(1, (2, [(2, 2)]))]; ODone; ONotFound; OBulk [0; 4]; ODone; OQuery [(2, (3, [(1, 0)]))]].
+Proof. vm_compute. repeat split. Qed.
 
 (* ---------- GetBulk: arguments and positions ---------- *)
 Theorem getbulk_contract : forall pers a ks,
